@@ -37,7 +37,7 @@ CASE (plain JSON-able dict)
                         error the task fails AFTER task.values was filled: doit still delivers the values to the tasks that
                         have it as calc_dep (model: calcResFail / Run.deliverF); the receivers are reported unmet}
   optional TASK fields (wave 4; absent = as before):
-          'wild_dep': [fnmatch patterns containing `*`]   written into the task's `task_dep` list next to the literal names;
+          'task_dep_wild': [fnmatch patterns containing `*`]   written into the task's `task_dep` list next to the literal names;
                         Task.__init__ moves them to `wild_dep`, TaskControl.__init__ appends the matching task names in
                         DEFINITION order (duplicates kept) after the literal / result_dep entries and before the implicit
                         target->file_dep ones -- expand() does the same, the model sees the expansion
@@ -148,7 +148,7 @@ def expand(case):
         if t['kind'] == 'group':
             td += [j for j, s in enumerate(tasks) if s['kind'] == 'sub' and s['group'] == t['name']]
         td += [idx[x] for x in t['result_dep']]
-        for pat in t.get('wild_dep') or ():
+        for pat in t.get('task_dep_wild') or ():
             td += [j for j, s in enumerate(tasks) if fnmatch.fnmatch(s['name'], pat)]
         su = [idx[x] for x in t['setup']]
         extra = []
@@ -498,8 +498,8 @@ def gen_case(rng, n_min=3, n_max=9, runner=None, nproc=None, weights=None, p_gro
                 # prefer patterns that match several tasks
                 ok.sort(key=lambda q: -len([x for x in ranked if fnmatch.fnmatch(x['name'], q)]))
                 pat = ok[min(len(ok) - 1, int(abs(rng.gauss(0, len(ok) / 2.5))))]
-                if pat not in t.setdefault('wild_dep', []):
-                    t['wild_dep'].append(pat)
+                if pat not in t.setdefault('task_dep_wild', []):
+                    t['task_dep_wild'].append(pat)
                 has_wild = True
     if p_multi_action and rng.random() < p_multi_action:
         for t in ranked:
@@ -515,11 +515,11 @@ def gen_case(rng, n_min=3, n_max=9, runner=None, nproc=None, weights=None, p_gro
         for t in ranked:
             if t['kind'] == 'group':
                 nsub_ = len([x for x in ranked if x['group'] == t['name']])
-                if not t['task_dep'] and not t.get('wild_dep'):
+                if not t['task_dep'] and not t.get('task_dep_wild'):
                     low = [x for x in ranked[:rank[t['name']]] if x['group'] != t['name']]
                     if low and rng.random() < 0.7:
                         t['task_dep'].append(rng.choice(low)['name'])
-                if (t['task_dep'] or t.get('wild_dep')) and nsub_:
+                if (t['task_dep'] or t.get('task_dep_wild')) and nsub_:
                     t['group_late'] = rng.randint(1, nsub_)
     for t in ranked:
         if t['status'] == 'error':
@@ -716,7 +716,7 @@ def gen_scale_case(rng, n=None, shape=None, runner='thread', nproc=None, n_min=5
     set has n-1 members), 'layers' (layers of 4..12 tasks, each depending on 1..3 tasks of the layer below through
     task_dep / setup / calc_dep), 'ladder' (diamonds stacked on each other), 'groups' (groups of up to 12 sub-tasks with a
     wildcard dependency on the previous group).  A few tasks fail / are up-to-date; mostly --continue.  The selection
-    is the sink(s) or everything.  case['scale'] = {'shape', 'n'}."""
+    is the sink(s) or everything.  case['bigcase'] = {'shape', 'n'}."""
     n = n or rng.randint(n_min, n_max)
     shape = shape or rng.choice(['chain', 'fan_out', 'fan_in', 'layers', 'layers', 'ladder', 'groups'])
     tasks = []
@@ -797,9 +797,9 @@ def gen_scale_case(rng, n=None, shape=None, runner='thread', nproc=None, n_min=5
                 if prevg is not None and rng.random() < 0.4:
                     sub['task_dep'].append(prevg)
             if prevg is not None:
-                grp['wild_dep'] = ['%s:*' % prevg] if rng.random() < 0.5 else []
-                if not grp['wild_dep']:
-                    del grp['wild_dep']
+                grp['task_dep_wild'] = ['%s:*' % prevg] if rng.random() < 0.5 else []
+                if not grp['task_dep_wild']:
+                    del grp['task_dep_wild']
                     grp['task_dep'].append(prevg)
             prevg = 'g%d' % g
             g += 1
@@ -823,7 +823,7 @@ def gen_scale_case(rng, n=None, shape=None, runner='thread', nproc=None, n_min=5
             tasks = order
     case = {'tasks': tasks, 'sel': sel, 'cont': rng.random() < 0.8, 'always': False, 'runner': runner,
             'nproc': 0 if runner == 'serial' else (nproc or rng.randint(2, 8)),
-            'policy': {'kind': 'seeded', 'seed': rng.randrange(1 << 30)}, 'scale': {'shape': shape, 'n': len(tasks)}}
+            'policy': {'kind': 'seeded', 'seed': rng.randrange(1 << 30)}, 'bigcase': {'shape': shape, 'n': len(tasks)}}
     case['model'] = expand(case)
     return case
 
@@ -944,16 +944,16 @@ def count_case(st, case, obs=None):
         st.count('combo:calc+task+setup')
     if any('*' in _x for _t in case['tasks'] for _x in (_t.get('calc_res') or {}).get('task_dep', [])):
         st.count('wild_dep:delivered_by_calc_result')
-    if case.get('scale'):
-        _n = case['scale']['n']
-        st.count('scale:%s' % case['scale']['shape'])
+    if case.get('bigcase'):
+        _n = case['bigcase']['n']
+        st.count('scale:%s' % case['bigcase']['shape'])
         st.count('scale:tasks_%s' % ('50-99' if _n < 100 else '100-199' if _n < 200 else '200+'))
         if case['runner'] != 'serial':
             st.count('scale:workers_%d' % case['nproc'])
     for _t in case['tasks']:
         if _t.get('calc_first'):
             st.count('calc_first:%s' % _t['outcome'])
-        for _p in _t.get('wild_dep') or ():
+        for _p in _t.get('task_dep_wild') or ():
             _k = len([1 for _x in case['tasks'] if fnmatch.fnmatch(_x['name'], _p)])
             st.count('wild_dep:matches=%s' % (_k if _k < 3 else '3+'))
             if _t['kind'] == 'group':
@@ -1295,13 +1295,13 @@ def build_namespace(case, rec):
 
     def dep_list(t):
         # patterns first: doit appends what they match AFTER the literal names
-        return lst('task_dep', list(t.get('wild_dep') or ()) + list(t['task_dep']))
+        return lst('task_dep', list(t.get('task_dep_wild') or ()) + list(t['task_dep']))
 
     def task_gen():
         late = {}      # group name -> [sub-tasks still to yield before the group's own dict, the dict]
         for n, t in enumerate(tasks):
             if t['kind'] == 'group':
-                if t['task_dep'] or t.get('wild_dep'):
+                if t['task_dep'] or t.get('task_dep_wild'):
                     gd = {'basename': t['name'], 'name': None, 'task_dep': dep_list(t)}
                     if t.get('group_late'):
                         late[t['name']] = [int(t['group_late']), gd]
@@ -1326,7 +1326,7 @@ def build_namespace(case, rec):
             else:
                 d['basename'] = t['name']
             for k in ('task_dep', 'setup', 'calc_dep', 'file_dep', 'targets'):
-                if k == 'task_dep' and t.get('wild_dep'):
+                if k == 'task_dep' and t.get('task_dep_wild'):
                     d[k] = dep_list(t)
                 elif t[k] or (k in share_attrs and share.get('empty')):
                     d[k] = lst(k, t[k])
@@ -2117,9 +2117,9 @@ def _variants(case):
                 del c['tasks'][i][k]
                 c['tasks'][i].pop('fail_at', None) if k == 'n_actions' else None
                 yield c
-        for j in range(len(t.get('wild_dep') or ())):
+        for j in range(len(t.get('task_dep_wild') or ())):
             c = clone()
-            del c['tasks'][i]['wild_dep'][j]
+            del c['tasks'][i]['task_dep_wild'][j]
             yield c
         for k in ('uptodate', 'junk', 'setup', 'as_str'):
             if t['calc_res'] is not None and k in t['calc_res']:
@@ -2196,8 +2196,8 @@ def render(case):
     lines = []
     for n, t in enumerate(case['tasks']):
         if t['kind'] == 'group':
-            extra = (' task_dep=%s' % (list(t.get('wild_dep') or ()) + t['task_dep'])) \
-                if (t['task_dep'] or t.get('wild_dep')) else ''
+            extra = (' task_dep=%s' % (list(t.get('task_dep_wild') or ()) + t['task_dep'])) \
+                if (t['task_dep'] or t.get('task_dep_wild')) else ''
             if t.get('group_late'):
                 extra += ' (group attributes yielded after %d sub-tasks)' % t['group_late']
             lines.append('#%d %-8s (group task; no actions)%s%s' % (n, t['name'], extra,
@@ -2205,8 +2205,8 @@ def render(case):
             continue
         parts = []
         for k in ('task_dep', 'setup', 'calc_dep', 'result_dep', 'file_dep', 'targets'):
-            if k == 'task_dep' and t.get('wild_dep'):
-                parts.append('task_dep=%s' % (list(t['wild_dep']) + t[k]))
+            if k == 'task_dep' and t.get('task_dep_wild'):
+                parts.append('task_dep=%s' % (list(t['task_dep_wild']) + t[k]))
             elif t[k]:
                 parts.append('%s=%s' % (k, t[k]))
         if t.get('n_actions'):
@@ -2685,7 +2685,7 @@ def eval_batch(batch):
         rng = random.Random(seed)
         knobs = dict(knobs)
         pol = knobs.pop('gen_policy', False)
-        big = knobs.pop('scale', None)
+        big = knobs.pop('bigcase', None)
         c = gen_scale_case(rng, runner=knobs.get('runner', 'thread'), **big) if big is not None else gen_case(rng, **knobs)
         if pol and c['runner'] == 'thread':
             c['policy'] = gen_policy(rng, c['nproc'])
